@@ -27,6 +27,9 @@ def jobs(tier):
     J.append(Job(S, "barrier2", "1,0,0,0" if q else "2,0,0,0", workers=8))
     J.append(Job(S, "barrier2", "0,0,1,0" if q else "1,0,1,0", workers=8))
     J.append(Job(S, "barrier_churn", "1,0,0,0" if q else "2,0,0,0", workers=8))
+    J.append(Job(S, "barrier_churn", "1,0,0,0" if q else "2,0,0,0", {"await_enq": 1}, workers=8))
+    J.append(Job(S, "barrier_free_pending", "1,0,0,0" if q else "2,0,0,0", workers=8))
+    J.append(Job(S, "barrier_free_pending", "1,0,0,0", {"yield_in_section": 0}, workers=8))
     for b, env in (("cr_memb", {"VRT_MEMBARRIER": 2}), ("cr_qsbr", {}), ("cr_bp", {"VRT_MEMBARRIER": 0})):
         p = {"qs_attempts": 1, "wait_attempts": 1, "reader": 0}
         J.append(Job(b, "barrier", "2,0,0,0", p, env, workers=8))
